@@ -16,7 +16,7 @@ const COMMENTS: &[&str] = &["", "-", " x ", ">", "->", "-->-", "a--b", "a-", "</
 const CDATAS: &[&str] = &["", "]", "]]", "]>", "x]]y", ">", "</a>", "<a/>", "&amp;", "]]]", " ", "é", "--"];
 const PIS: &[&str] = &["", "t", "t x", "t ?", "t >", "t ?x>", "xml", "xmlx", "xml-stylesheet href='>'", "?", " t"];
 const DOCTYPES: &[&str] = &[
-    "a", " a", "a [<!ENTITY x \">\">]", "a [<!ELEMENT a (b)><!-- > -->]", "a SYSTEM 'x>'", "", " ", "a<b>c", "html",
+    "a", " a", "a [<!ENTITY x \">\">]", "a [<!ELEMENT a (b)><!-- > -->]", "a [<!-- <!ELEMENT a ANY> -->]", "a [<!ENTITY % x '<!-- <y><z/> -->'>]>", "a [<a<b<c>>>]", "a SYSTEM 'x>'", "", " ", "a<b>c", "html",
 ];
 
 pub fn pick<'a>(rng: &mut StdRng, xs: &[&'a str]) -> &'a str {
